@@ -311,6 +311,30 @@ int main(int argc, char **argv) {
   std::vector<GlobalAlias *> aliases;
   for (auto &A : M->aliases()) aliases.push_back(&A);
   for (auto *A : aliases) { A->replaceAllUsesWith(A->getAliasee()); A->eraseFromParent(); }
+  // 1b. drop the bodies of functions that no analysed wrapper can reach (iostream machinery,
+  //     main() of included programs ...): they would only cost optimisation time
+  {
+    std::set<Function *> reach;
+    std::vector<Function *> work;
+    for (auto &F : *M) if (!F.isDeclaration() && (wanted(F.getName()) || isOpaque(F.getName()))) { reach.insert(&F); work.push_back(&F); }
+    while (!work.empty()) {
+      Function *F = work.back(); work.pop_back();
+      for (auto &BB : *F) for (auto &I : BB) for (auto &Op : I.operands()) {
+        Value *v = Op.get()->stripPointerCasts();
+        if (auto *G = dyn_cast<Function>(v)) if (!G->isDeclaration() && reach.insert(G).second) work.push_back(G);
+        if (auto *GV = dyn_cast<GlobalVariable>(v)) if (GV->hasInitializer()) {
+          // functions referenced from initialisers (vtables): keep them
+          std::vector<Constant *> cs{GV->getInitializer()}; std::set<Constant *> seenc;
+          while (!cs.empty()) { Constant *c = cs.back(); cs.pop_back(); if (!seenc.insert(c).second) continue;
+            if (auto *G2 = dyn_cast<Function>(c->stripPointerCasts())) { if (!G2->isDeclaration() && reach.insert(G2).second) work.push_back(G2); continue; }
+            if (isa<GlobalVariable>(c) && c != GV) continue;
+            for (auto &o : c->operands()) if (auto *oc = dyn_cast<Constant>(o.get())) cs.push_back(oc); }
+        }
+      }
+    }
+    if (!allGlobals || true)
+      for (auto &F : *M) if (!F.isDeclaration() && !reach.count(&F)) { F.deleteBody(); F.setComdat(nullptr); }
+  }
   // 2. inlining attributes
   for (auto &F : *M) {
     if (F.isDeclaration()) continue;
